@@ -425,7 +425,7 @@ func tasksOf(sc *sim.Scenario) [][]sim.Step {
 // probability of the "big" scenario flavour (large shared tensors): rare in
 // stage A (each costs as much as ~200 ordinary scenarios and size-triggered
 // parallel code paths show under real parallelism), frequent in stage B
-var c20BigP = 0.004
+var c20BigP = 0.0025
 
 func init() {
 	if !sim.Instrumented() {
@@ -702,6 +702,9 @@ func (c20) Generate(r *sim.Rand, tier string) *sim.Scenario {
 			calls, shape := r.Range(15, 60), []int{r.Range(2, 3)}
 			if tk == 0 {
 				calls, shape = r.Range(1, 3), []int{r.Range(120, 170), r.Range(150, 220)}
+				if sim.Instrumented() {
+					shape = []int{r.Range(40, 60), r.Range(50, 70)} // stage A: statement-level yields make every element cost a few
+				}
 			}
 			for j := 0; j < calls; j++ {
 				st := sim.Step{C: tk, Out: ids.New(), I: cpI(shape), Tag: "rng", B: false}
